@@ -1,7 +1,7 @@
 import VizierModel.Driver.Util
 import VizierModel.Driver.SvcJson
-import VizierModel.Model.Stores
-open Lean VizierModel.Driver VizierModel.Driver.SvcJson VizierModel.Svc VizierModel.Stores
+import VizierModel.Model.StoresEs
+open Lean VizierModel.Driver VizierModel.Driver.SvcJson VizierModel.Svc VizierModel.Stores VizierModel.StoresEs
 
 /-! Line-protocol driver of the representation-level datastore models (C07): the SAME raw call
 sequence is executed on the nested-dict model (`Ram`) and on the table model (`Sql`). -/
@@ -30,6 +30,40 @@ def outR {α : Type} (f : α → Json) (r : Except DsErr α) : Json :=
   match r with
   | .ok v => f v
   | .error e => errStr e
+
+def deltaOfJson (o : Json) : Except String MdDelta := do
+  let study ← mdOfJson (← o.getObjVal? "study")
+  let trials ← (← getArr o "trials").toList.mapM fun e => do
+    let a ← fromJson? (α := Array Json) e
+    if a.size != 2 then throw "trials: need [id, md]"
+    let id ← fromJson? (α := Nat) a[0]!
+    return (id, ← mdOfJson a[1]!)
+  return { study := study, trials := trials }
+
+/-- the early-stopping-operation models (their own study bookkeeping) -/
+def stepEs (r : RamE) (q : SqlE) (o : Json) : Except String (RamE × SqlE × Json × Json) := do
+  let kind ← getStr o "op"
+  match kind with
+  | "createStudy" =>
+    let k ← keyOfJson o
+    let (r', a) := outW r (r.createStudy k); let (q', b) := outW q (q.createStudy k)
+    return (r', q', a, b)
+  | "deleteStudy" =>
+    let k ← keyOfJson o
+    let (r', a) := outW r (r.deleteStudy k); let (q', b) := outW q (q.deleteStudy k)
+    return (r', q', a, b)
+  | "createEs" =>
+    let k ← keyOfJson o; let e ← esOpOfJson (← o.getObjVal? "es")
+    let (r', a) := outW r (r.createEs k e); let (q', b) := outW q (q.createEs k e)
+    return (r', q', a, b)
+  | "updateEs" =>
+    let k ← keyOfJson o; let e ← esOpOfJson (← o.getObjVal? "es")
+    let (r', a) := outW r (r.updateEs k e); let (q', b) := outW q (q.updateEs k e)
+    return (r', q', a, b)
+  | "getEs" =>
+    let k ← keyOfJson o; let id ← getNat o "id"
+    return (r, q, outR jsonOfEs (r.getEs k id), outR jsonOfEs (q.getEs k id))
+  | _ => throw s!"unknown es op {kind}"
 
 def stepBoth (r : Ram) (q : Sql) (o : Json) : Except String (Ram × Sql × Json × Json) := do
   let kind ← getStr o "op"
@@ -83,6 +117,10 @@ def stepBoth (r : Ram) (q : Sql) (o : Json) : Except String (Ram × Sql × Json 
     let k ← keyOfJson o; let op ← opOfJson (← o.getObjVal? "sop")
     let (r', a) := outW r (r.updateOp k op); let (q', b) := outW q (q.updateOp k op)
     return (r', q', a, b)
+  | "updateMetadata" =>
+    let k ← keyOfJson o; let d ← deltaOfJson o
+    let (r', a) := outW r (r.updateMetadata k d); let (q', b) := outW q (q.updateMetadata k d)
+    return (r', q', a, b)
   | "getOp" =>
     let k ← keyOfJson o; let c ← getStr o "client"; let n ← getNat o "num"
     return (r, q, outR jsonOfOp (r.getOp k c n), outR jsonOfOp (q.getOp k c n))
@@ -99,11 +137,26 @@ def handle (j : Json) : Except String Json := do
   let ops ← getArr j "ops"
   let mut r := Ram.empty
   let mut q := Sql.empty
+  let mut re : RamE := []
+  let mut qe := SqlE.empty
   let mut ra : Array Json := #[]
   let mut qa : Array Json := #[]
   for o in ops do
-    let (r', q', a, b) ← stepBoth r q o
-    r := r'; q := q'; ra := ra.push a; qa := qa.push b
+    let kind ← getStr o "op"
+    if kind == "createEs" || kind == "updateEs" || kind == "getEs" then
+      let (re', qe', a, b) ← stepEs re qe o
+      re := re'; qe := qe'; ra := ra.push a; qa := qa.push b
+    else
+      let (r', q', a, b) ← stepBoth r q o
+      r := r'; q := q'
+      if kind == "createStudy" || kind == "deleteStudy" then
+        -- the early-stopping models keep their own study set: it must follow the main models'
+        let (re', qe', a2, b2) ← stepEs re qe o
+        re := re'; qe := qe'
+        ra := ra.push (if a2 == a then a else Json.str "es-model-disagrees-on-study")
+        qa := qa.push (if b2 == b then b else Json.str "es-model-disagrees-on-study")
+      else
+        ra := ra.push a; qa := qa.push b
   return Json.mkObj [("ram", toJson ra), ("sql", toJson qa)]
 
 def main : IO Unit := serve handle
